@@ -158,6 +158,7 @@ def simulated_histories(ctx):
     base = open(os.path.join(tlc.SPEC_DIR, "TrackerSM.cfg")).read().replace("CONSTRAINT Bounded\n", "")
     V = []
     nbeh = 0
+    hist = {}
     for start in range(1, 7):
         d = os.path.join(ctx.tmp, "sim%d" % start)
         os.makedirs(d, exist_ok=True)
@@ -175,6 +176,7 @@ def simulated_histories(ctx):
             prev = None
             truth_at = {}
             for lab, st in beh:
+                hist[lab.split("(")[0]] = hist.get(lab.split("(")[0], 0) + 1
                 if prev is not None and lab.startswith("PosSquitter"):
                     m = st["pend"]["adsb"][-1]
                     ac = int(lab[lab.index("(") + 1:lab.index(",")])
@@ -195,6 +197,10 @@ def simulated_histories(ctx):
                 V.append({"fn": "tracker.run", "rx": [1, rx[0], rx[1]], "script": script, "lower": rng.choice([0, 1, 2]), "origin": "tlc"})
         shutil.rmtree(d, ignore_errors=True)
     ctx.extra["tlc_simulated_behaviours_replayed"] = nbeh
+    ctx.extra["tlc_simulated_action_histogram"] = hist        # vacuity guard: every action of TrackerSM is taken
+    missing = [a for a in ("Tick", "PosSquitter", "OtherSquitter", "CommBReply", "SwitchMode", "Proc") if not hist.get(a)]
+    if missing:
+        raise tlc.MachineryError("vacuous simulation: actions never taken: %s" % missing)
     return V
 
 
